@@ -81,9 +81,16 @@ func init() {
 	}
 	envFuncs["fmt.Errorf"] = envFuncs["errors.New"]
 	envFuncs["bytes.Equal"] = func(fc *FnCtx, fr *Frame, st *State, reach string, args []Val, call ssa.CallInstruction) Val {
+		// same model as bytes.Compare(a, b) == 0
+		a, b := args[0], args[1]
 		r := fc.sc.fresh("bytes_eq", "Bool")
-		fc.sc.assume(tImp(r, tEq(args[0].Len, args[1].Len)))
-		fc.sc.assume(tImp(tAnd(tEq(args[0].Len, "0"), tEq(args[1].Len, "0")), r))
+		ia := tSel(fc.elemArray(st, a), a.Arr)
+		ib := tSel(fc.elemArray(st, b), b.Arr)
+		fc.nq++
+		k := fmt.Sprintf("q%d_k", fc.nq)
+		same := "(forall ((" + k + " Int)) (! (=> (and (<= " + a.Off + " " + k + ") (< " + k + " (+ " + a.Off + " " + a.Len + "))) (= (select " + ia + " " + k + ") (select " + ib + " (+ (- " + k + " " + a.Off + ") " + b.Off + ")))) :pattern ((select " + ia + " " + k + "))))"
+		fc.sc.assume(tImp(r, tAnd(tEq(a.Len, b.Len), same)))
+		fc.sc.assume(tImp(tAnd(tEq(a.Len, "0"), tEq(b.Len, "0")), r))
 		return boolVal(r)
 	}
 	envFuncs["bytes.Compare"] = func(fc *FnCtx, fr *Frame, st *State, reach string, args []Val, call ssa.CallInstruction) Val {
